@@ -94,6 +94,11 @@ def verify_keys(report, keys, standin=None, procs=8):
     if loop_assumed:
         report.extra['loop_assumptions'] = loop_assumed
         report.assume('assumed at the start of a loop iteration (environment facts, not proved): ' + '; '.join(c[:200] for c in loop_assumed))
+    pruned = sorted({'%s: calls of %s not followed (%s)' % (k, a, why) for k in keys if k in REG for a, why in REG[k].frame_prune.items()})
+    pruned += sorted({'%s: self.%s resolves to %s (static class of self)' % (k, a, t) for k in keys if k in REG
+                      for a, t in REG[k].frame_dispatch.items()})
+    if pruned:
+        report.assume('frame check call-graph pruning: ' + '; '.join(pruned))
     if assumed:
         report.extra['frame_assumptions'] = assumed
         report.assume('frame assumptions (writes not counted by the frame check): ' + '; '.join(assumed))
